@@ -254,7 +254,12 @@ Definition c04_ok (c : case) : bool :=
 (* with an injected subprocess fault the run model does not apply (it has no dying children): only the predicate is evaluated *)
 Definition base_code (c : case) : nat := bit (negb (i_injected c) && negb (agree c)) 1 + bit (negb (wf_case c)) 4.
 Definition check_C01 (c : case) : nat := base_code c + bit (negb (c01_ok (w c) (i_parent c) (i_children c))) 2.
-Definition check_C05 (c : case) : nat := base_code c + bit (negb (c05_ok (w c) (i_parent c) (i_children c))) 2.
+(* the grouping of hook calls into test executions is unambiguous when every layer defines both per-test hooks or
+   neither, or no test is skipped by decorator: the hypothesis of C05_predicate_holds_of_model (other cases: bit 4) *)
+Definition sym_case (c : case) : bool :=
+  forallb (fun s => Bool.eqb (l_tsetup s) (l_tteardown s)) (lsp (w c)) || forallb (fun b => negb (t_deco b)) (tests (w c)).
+Definition check_C05 (c : case) : nat :=
+  base_code c + bit (negb (c05_ok (w c) (i_parent c) (i_children c))) 2 + bit (wf_case c && negb (sym_case c)) 4.
 Definition check_C16 (c : case) : nat := base_code c + bit (negb (c16_ok c)) 2.
 (* with an injected subprocess fault the lists must say so: an error entry for the layer's subprocess, verdict failed *)
 Definition c12_injected_ok (c : case) : bool :=
